@@ -52,4 +52,81 @@ example : decrypt eexecR (encrypt eexecR [0x58, 0, 0, 0, 0x64, 0x75, 0x70]) = [0
 theorem deobf_negative (cs : List UInt8) (n : Int) (h : n < 0) : deobfuscate cs n = none := by
   simp [deobfuscate, h]
 
+/-! ### No information is lost, and decoding never retracts (added for C05/C06/C08/C09)
+
+The reader decrypts a stream as it arrives; the writer encrypts chunk by chunk.  What a user relies on beyond the
+round trip: two different plaintexts never share a ciphertext (from any state), the plaintext of a prefix of the
+ciphertext is the prefix of the plaintext (so bytes already handed to the scanner are never revised by later input),
+and `deobfuscateCharstring` answers `nil` exactly outside `0 ≤ lenIV ≤ len`. -/
+
+/-- encryption is injective from every cipher state -/
+theorem encrypt_inj (r : UInt16) (a b : List UInt8) (h : encrypt r a = encrypt r b) : a = b := by
+  have := congrArg (decrypt r) h
+  rwa [dec_enc, dec_enc] at this
+
+/-- decryption is injective from every cipher state -/
+theorem decrypt_inj (r : UInt16) (a b : List UInt8) (h : decrypt r a = decrypt r b) : a = b := by
+  have := congrArg (encrypt r) h
+  rwa [enc_dec, enc_dec] at this
+
+/-- every byte string is the ciphertext of exactly one plaintext (and vice versa): the cipher is a bijection
+on strings of each length, from every state -/
+theorem encrypt_surj (r : UInt16) (cs : List UInt8) : ∃ ps, encrypt r ps = cs ∧ ps.length = cs.length :=
+  ⟨decrypt r cs, enc_dec r cs, decrypt_length r cs⟩
+
+/-- the plaintext of a prefix is the prefix of the plaintext: later cipher bytes never change earlier plain bytes -/
+theorem decrypt_take (r : UInt16) (cs : List UInt8) (n : Nat) :
+    decrypt r (cs.take n) = (decrypt r cs).take n := by
+  induction cs generalizing r n with
+  | nil => simp [decrypt]
+  | cons c cs ih =>
+    cases n with
+    | zero => simp [decrypt]
+    | succ n => simp only [List.take_succ_cons, decrypt, ih]
+
+/-- the same for the writer: the ciphertext of a prefix is the prefix of the ciphertext -/
+theorem encrypt_take (r : UInt16) (ps : List UInt8) (n : Nat) :
+    encrypt r (ps.take n) = (encrypt r ps).take n := by
+  induction ps generalizing r n with
+  | nil => simp [encrypt]
+  | cons p ps ih =>
+    cases n with
+    | zero => simp [encrypt]
+    | succ n => simp only [List.take_succ_cons, encrypt, ih]
+
+/-- `deobfuscateCharstring` answers `nil` exactly when `lenIV` is negative or exceeds the length -/
+theorem deobf_none_iff (cs : List UInt8) (n : Int) :
+    deobfuscate cs n = none ↔ (n < 0 ∨ (cs.length : Int) < n) := by
+  unfold deobfuscate
+  split <;> simp_all
+
+/-- and otherwise returns exactly `len - lenIV` bytes, the tail of the decryption -/
+theorem deobf_some_length (cs p : List UInt8) (n : Int) (h : deobfuscate cs n = some p) :
+    0 ≤ n ∧ n ≤ cs.length ∧ (p.length : Int) = cs.length - n := by
+  unfold deobfuscate at h
+  split at h
+  · cases h
+  · rename_i hn
+    have h0 : 0 ≤ n := by omega
+    have h1 : n ≤ cs.length := by omega
+    injection h with h
+    subst h
+    refine ⟨h0, h1, ?_⟩
+    rw [List.length_drop, decrypt_length]
+    omega
+
+/-- a charstring with too large a `lenIV` is rejected, never read out of bounds -/
+theorem deobf_too_long (cs : List UInt8) (n : Int) (h : (cs.length : Int) < n) : deobfuscate cs n = none :=
+  (deobf_none_iff cs n).2 (Or.inr h)
+
+/-- the recovered charstring does not depend on which `lenIV` lead bytes the writer chose -/
+theorem deobf_iv_irrelevant (iv iv' plain : List UInt8) (h : iv.length = iv'.length) :
+    deobfuscate (obfuscate iv plain) iv.length = deobfuscate (obfuscate iv' plain) iv.length := by
+  rw [deobf_obf, h, deobf_obf]
+
+/-- non-vacuity: a prefix and the bounds -/
+example : decrypt eexecR ([1, 2, 3, 4, 5].take 3) = (decrypt eexecR [1, 2, 3, 4, 5]).take 3 := by decide
+example : deobfuscate [1, 2, 3] 4 = none ∧ deobfuscate [1, 2, 3] (-1) = none ∧
+    (deobfuscate [1, 2, 3] 3) = some [] := by decide
+
 end PsVerif.Props.Cipher
